@@ -332,3 +332,11 @@ Definition sorted_values (t : timer Qc) : timer Qc :=
      t_median := t_median t; t_min := t_min t; t_max := t_max t; t_var := t_var t;
      t_sum := t_sum t; t_sumsq := t_sumsq t; t_values := qsort (t_values t);
      t_pcts := t_pcts t; t_tags := t_tags t; t_hist := t_hist t |}.
+
+(* a report with its Percentiles replaced (Percentiles.Set only ever appends: a Flush that was not
+   followed by Reset leaves its block in front of the next one) *)
+Definition with_pcts (t : timer Qc) (p : list (str * Qc)) : timer Qc :=
+  {| t_count := t_count t; t_sampled := t_sampled t; t_persec := t_persec t; t_mean := t_mean t;
+     t_median := t_median t; t_min := t_min t; t_max := t_max t; t_var := t_var t;
+     t_sum := t_sum t; t_sumsq := t_sumsq t; t_values := t_values t;
+     t_pcts := p; t_tags := t_tags t; t_hist := t_hist t |}.
